@@ -15,6 +15,7 @@ import (
 	"os"
 	"runtime"
 	"sync"
+	"sync/atomic"
 	"time"
 )
 
@@ -124,9 +125,12 @@ type task struct {
 	steps   int64
 	prio    int
 	opTag   int64 // set by the harness: current operation index (for probes)
+	goid    int64 // the runtime's id of the task's goroutine
+	ext     bool  // presumed blocked in an operation the simulator does not schedule; the token was taken from it
 }
 
 type sched struct {
+	idle        bool // nobody holds the token: it waits for a task that blocked outside the scheduler (see goIdle)
 	cfg         Config
 	rng         *Rng
 	tasks       []*task
@@ -281,6 +285,7 @@ const maxMidOpGCs = 300
 //go:norace
 func point(sync bool) {
 	s := cur
+	s.reenter()
 	t := s.cur
 	s.step++
 	t.steps++
@@ -313,7 +318,7 @@ func point(sync bool) {
 
 //go:norace
 func (s *sched) runnable(t *task) bool {
-	return !t.done && t.blocked == 0 && (t.started || s.startAt(t) <= s.step)
+	return !t.done && t.blocked == 0 && !t.ext && (t.started || s.startAt(t) <= s.step)
 }
 
 //go:norace
@@ -434,12 +439,14 @@ func (s *sched) resume(next *task) {
 //go:norace
 func (s *sched) taskMain(t *task) {
 	raceDisable()
+	t.goid = goid()
 	<-t.wake
 	// The task body runs in "harness mode": synchronisation events of the harness itself (journal writes, fmt and
 	// encoding/json pools, ...) are ignored by the race detector, so that they neither get reported nor add
 	// happens-before edges between tasks that could hide frugal's own races. Calls into frugal are bracketed by
 	// Visible, inside which the detector sees everything.
 	t.fn()
+	s.reenter() // (a task that came back from an unscheduled blocking operation waits for the token first)
 	raceEnable()
 	s.join.Done() // real release edge towards the final join in Run
 	raceDisable()
@@ -448,6 +455,9 @@ func (s *sched) taskMain(t *task) {
 	nx := s.anyRunnable()
 	if nx == nil {
 		if !s.allDone() {
+			if s.goIdle() {
+				return
+			}
 			s.dead = s.describeWaits()
 		}
 		s.main <- struct{}{}
@@ -572,6 +582,7 @@ func Block(obj uintptr) {
 		return
 	}
 	s := cur
+	s.reenter()
 	t := s.cur
 	probe[ProbeLockWait]++
 	s.blkAcq++
@@ -579,10 +590,31 @@ func Block(obj uintptr) {
 	s.step++
 	nx := s.anyRunnable()
 	if nx == nil {
+		if s.goIdle() {
+			// tasks that blocked outside the scheduler are still out: the next one that comes back takes the token
+			raceDisable()
+			<-t.wake
+			raceEnable()
+			return
+		}
 		s.dead = s.describeWaits()
 		s.abort()
 	}
 	s.switchTo(t, nx)
+}
+
+// goIdle: nobody can run right now, but some task is blocked in an operation the simulator does not schedule and may
+// come back. The token is left on the table (idle) for the first one that does.
+//
+//go:norace
+func (s *sched) goIdle() bool {
+	extMu.Lock()
+	ok := atomic.LoadInt32(&nExt) > 0
+	if ok {
+		s.idle = true
+	}
+	extMu.Unlock()
+	return ok
 }
 
 // Unblock makes every task waiting on obj runnable again.
@@ -728,36 +760,189 @@ func Run(cfg Config, fns []func()) Result {
 	return r
 }
 
-// OnStall, if set, is called (on the monitor's goroutine) when no task has passed a step for StallSeconds of wall
-// time although the run is not over: the task holding the run token is blocked in something the simulator does not
-// see (a channel operation, a real lock, a system call) - with every other task parked, nothing will ever wake it.
-// The argument is the dump of all goroutine stacks. The hook is expected not to return.
+// OnStall, if set, is called (on the monitor's goroutine) when the run cannot go on: the task that holds the run token
+// is blocked in an operation the simulator does not schedule (a channel operation, a real lock) and no other task can
+// run either - or, as a fallback, when no task has passed a yield point for StallSeconds of wall time inside the code
+// under test. The argument is the dump of all goroutine stacks. The hook is expected not to return.
 var (
 	OnStall      func(stacks string)
 	StallSeconds = 25
 )
 
+var nExt int32 // tasks whose token was taken away while they were blocked (atomic)
+
+var extMu sync.Mutex // orders the rare hand-overs between the monitor, a task that goes idle and a task that comes back
+
+// ExtHandoffs counts how often the token was taken from a task that blocked in an unscheduled operation.
+var ExtHandoffs int
+
+// stallMonitor watches the step counter from outside. A token holder that stops passing yield points while it is
+// inside the code under test and whose goroutine sits in a blocking state (channel, lock, select) is waiting for
+// something only another task can do - but every other task is parked. The monitor then takes the token away and
+// gives it to another runnable task (the blocked goroutine stays where it is; when it comes back it waits for the
+// token at its next scheduling point, see reenter). Only when no other task can run is this a deadlock of the code
+// under test. Runs in which this happens are timing-dependent from there on (they do not replay step by step).
+//
 //go:norace
 func (s *sched) stallMonitor(stop chan struct{}) {
-	last, same := int64(-1), 0
+	last, same, idleTicks := int64(-1), 0, 0
+	tick := 50 * time.Millisecond
+	buf := make([]byte, 4<<20)
 	for {
 		select {
 		case <-stop:
 			return
-		case <-time.After(time.Second):
+		case <-time.After(tick):
 		}
+		if s.idle {
+			// nobody holds the token. If every task that is out is really blocked (and stays so for a second), nothing
+			// will ever move again: a deadlock of the code under test.
+			idleTicks++
+			n := runtime.Stack(buf, true)
+			all := true
+			for _, o := range s.tasks {
+				if o.ext && !blockedState(buf[:n], o.goid) {
+					all = false
+				}
+			}
+			if !all {
+				idleTicks = 0
+			}
+			if idleTicks >= 20 && OnStall != nil {
+				OnStall(string(buf[:n]))
+				return
+			}
+			last, same = s.step, 0
+			continue
+		}
+		idleTicks = 0
 		if s.step != last || inHarness() {
 			last, same = s.step, 0
 			continue
 		}
 		same++
-		if same >= StallSeconds && OnStall != nil {
-			buf := make([]byte, 1<<20)
+		if same >= 3 || (ExtHandoffs > 0 && same >= 1) {
+			t := s.cur
+			n := runtime.Stack(buf, true)
+			if t != nil && !t.done && !t.ext && blockedState(buf[:n], t.goid) {
+				extMu.Lock()
+				t.ext = true
+				atomic.AddInt32(&nExt, 1)
+				ExtHandoffs++
+				s.step++
+				if nx := s.anyRunnable(); nx != nil {
+					s.cur = nx
+					extMu.Unlock()
+					last, same = s.step, 0
+					s.resume(nx)
+					continue
+				}
+				s.idle = true
+				extMu.Unlock()
+				continue
+			}
+		}
+		if same >= StallSeconds*20 && OnStall != nil {
 			n := runtime.Stack(buf, true)
 			OnStall(string(buf[:n]))
 			return
 		}
 	}
+}
+
+// reenter is called at every scheduling point. Normally it returns at once. A task whose token was taken away while it
+// was blocked (ext) and that has come back parks here until the scheduler chooses it again.
+//
+//go:norace
+func (s *sched) reenter() {
+	if atomic.LoadInt32(&nExt) == 0 {
+		return
+	}
+	id := goid()
+	for _, o := range s.tasks {
+		if o.goid == id {
+			if o.ext {
+				extMu.Lock()
+				o.ext = false
+				atomic.AddInt32(&nExt, -1)
+				if s.idle {
+					// nobody holds the token: take it
+					s.idle = false
+					s.cur = o
+					extMu.Unlock()
+					return
+				}
+				extMu.Unlock()
+				raceDisable()
+				<-o.wake
+				raceEnable()
+			}
+			return
+		}
+	}
+}
+
+// goid parses the id of the calling goroutine out of its stack header ("goroutine 123 [running]:").
+//
+//go:norace
+func goid() int64 {
+	var b [40]byte
+	n := runtime.Stack(b[:], false)
+	var id int64
+	for i := len("goroutine "); i < n && b[i] >= '0' && b[i] <= '9'; i++ {
+		id = id*10 + int64(b[i]-'0')
+	}
+	return id
+}
+
+// blockedState reports whether the dump shows goroutine id in a state only another goroutine can end.
+//
+//go:norace
+func blockedState(dump []byte, id int64) bool {
+	var pat [40]byte
+	k := 0
+	for _, c := range []byte("goroutine ") {
+		pat[k] = c
+		k++
+	}
+	var dg [20]byte
+	nd := 0
+	for v := id; v > 0; v /= 10 {
+		dg[nd] = byte('0' + v%10)
+		nd++
+	}
+	for nd > 0 {
+		nd--
+		pat[k] = dg[nd]
+		k++
+	}
+	pat[k], pat[k+1] = ' ', '['
+	k += 2
+	for i := 0; i+k < len(dump); i++ {
+		if (i == 0 || dump[i-1] == '\n') && hasPrefixAt(dump, i, pat[:k]) {
+			st := dump[i+k:]
+			for _, w := range [...]string{"chan receive", "chan send", "select", "semacquire", "sync.Mutex.Lock", "sync.RWMutex", "sync.Cond.Wait", "sync.WaitGroup.Wait"} {
+				if hasPrefixAt(st, 0, []byte(w)) {
+					return true
+				}
+			}
+			return false
+		}
+	}
+	return false
+}
+
+//go:norace
+func hasPrefixAt(b []byte, at int, p []byte) bool {
+	if at+len(p) > len(b) {
+		return false
+	}
+	for i := range p {
+		if b[at+i] != p[i] {
+			return false
+		}
+	}
+	return true
 }
 
 // inHarness: the current task is outside Visible (harness code, which may legitimately compute for long without
